@@ -259,7 +259,7 @@ def main(argv):
     holds = [o.id for o in counted if results[o.id]["verdict"] == "HOLDS"]
     paths = sum(results[o.id].get("paths", 0) for o in obs)
     samples = []
-    for o in counted:
+    for o in sorted(counted, key=lambda o: -results[o.id].get("paths", 0)):          # the richest explorations first
         r = results[o.id]
         if r.get("samples"):
             samples.append({"obligation": o.id, "desc": o.desc, "verdict": r["verdict"], "paths": r["paths"],
